@@ -96,9 +96,9 @@ pub open spec fn window_of<T: CellType>(r: Range<T>, src: Range<T>, s: (u32, u32
 
 // TRUSTED: expansion of `#[derive(Default)]` on `struct Range<T>` ((0, 0), (0, 0), Vec::new()); the derive itself is dropped by the
 // extractor (Verus rejects derives on generic structs). Only the observable fact "the default range is empty and well-formed" is used.
-impl<T> Default for Range<T> {
+impl<T: CellType> Default for Range<T> {
     fn default() -> (r: Self)
-        ensures r.inner@.len() == 0,
+        ensures r.wf() && !r.nonempty(),
     {
         Range { start: (0, 0), end: (0, 0), inner: Vec::new() }
     }
